@@ -710,3 +710,42 @@ Proof.
   intros Hwf Hb. pose proof (balances_conserve c k0 ops Hwf) as H. cbv zeta in H.
   unfold balance_total in H. rewrite Hb in H. cbn in H. lia.
 Qed.
+
+(** * Several HTLCs, one payment hash *)
+
+Lemma known_from_app ops1 : forall k ops2, known_from k (ops1 ++ ops2) = known_from (known_from k ops1) ops2.
+Proof. induction ops1 as [|[adv txs|i] t IH]; intros k ops2; cbn [app known_from]; [reflexivity | apply IH | apply IH]. Qed.
+
+Lemma known_from_preimages l : forall k i, In i l -> In i (known_from k (map OpPreimage l)).
+Proof.
+  induction l as [|x t IH]; intros k i Hin; [destruct Hin|]. cbn [map known_from].
+  destruct Hin as [-> | Hin]; [apply known_from_mono; left; reflexivity | apply IH; exact Hin].
+Qed.
+
+(** Once the preimage of a payment hash is provided, the monitor knows it for EVERY HTLC of the
+    commitment that carries this hash ... *)
+Lemma same_hash_all_known c k0 ops H i h :
+  nth_error (c_htlcs c) i = Some h -> h_hash h = H ->
+  knows (run c k0 (ops ++ learn c H)) i = true.
+Proof.
+  intros Hn Hh. destruct (run_rel c k0 (ops ++ learn c H)) as (_ & _ & Hk). unfold knows. rewrite Hk.
+  rewrite known_from_app. apply existsb_exists. exists i. split; [|apply Nat.eqb_refl].
+  unfold learn. apply known_from_preimages. apply (indices_with_hash_in H (c_htlcs c) 0 i h); [rewrite Nat.sub_0_r; exact Hn | lia | exact Hh].
+Qed.
+
+(** ... so every one of them that still has an unspent output is being claimed: two HTLCs with equal
+    hashes yield two claims. *)
+Lemma same_hash_all_claimed c k0 ops H i h :
+  0 <= c_height c ->
+  nth_error (c_htlcs c) i = Some h -> h_hash h = H -> h_output h = true -> h_outbound h = false ->
+  spent_b (run c k0 (ops ++ learn c H)) i = false ->
+  In i (claiming c (run c k0 (ops ++ learn c H))).
+Proof.
+  intros Hc Hn Hh Ho Hb Hs. apply claiming_spec. exists h. split; [exact Hn|]. split; [exact Hs|].
+  exists ByPreimage. rewrite (same_hash_all_known c k0 ops H i h Hn Hh).
+  split; [unfold claim_request; rewrite Ho, Hb; reflexivity|].
+  destruct (run_rel c k0 (ops ++ learn c H)) as (_ & Hbest & _). rewrite Hbest.
+  pose proof (best_from_ge (ops ++ learn c H) (c_height c)) as Hge.
+  unfold claim_released. rewrite claim_locktime_value by lia.
+  destruct (c_side c); apply negb_true_iff; apply Z.ltb_ge; lia.
+Qed.
